@@ -99,9 +99,12 @@ TEXT["C15"] = ("Theorems: the memcpy shortcut is taken only when the conversion 
                "value), otherwise element-wise conversion; lvalue sources are not moved from, rvalue sources are. Correspondence: "
                "emplace matrix (source category x value category x iterator kind) with move counters.")
 TEXT["C17"] = ("Theorems with the fault position universally quantified: a throwing allocation leaves the ledger unchanged; reallocate and "
-               "copy assignment give the strong guarantee on the owning pointer; block+table allocation returns the first block when the "
-               "second throws; construction, reserve and copy under fault leave all existing vectors unchanged. Correspondence: systematic "
-               "fault matrix (every allocation index of every operation) plus random faults, with liveness reads afterwards.")
+               "the pointer's copy assignment give the strong guarantee; block+table allocation returns the first block when the second "
+               "throws; construction, reserve, copy construction and move assignment under fault leave every vector and the ledger exactly "
+               "as before; copy assignment under fault leaves the source and all other vectors unchanged and the target a valid empty vector "
+               "that owns its block (basic guarantee), without ledger errors. Offset-table leak of lists with VaryingSize: known finding "
+               "(C07). Correspondence: systematic fault matrix (every allocation index of every operation) plus random faults, with "
+               "liveness reads afterwards.")
 TEXT["C19"] = ("Theorems on the access model: const operations write nothing of the shared state, copying reads only, so any schedule of const "
                "operations observes the same values. PARTIAL: memory-model behaviour of real threads cannot be exhibited by the model; "
                "supported by executing every const operation with the vector, block and table mapped read-only (a write faults) and a "
